@@ -5,8 +5,9 @@ import MorfuseModel.Lang.Syntax
 Transcribed from `src/Script/ScriptVariable.cpp` for the kinds the typed fragment uses (NIL, 64-bit
 integer, string — `String` and `ConstString` are one kind here, they differ only in storage —, char
 (the result of indexing a string) and array).  Every `case A + B*Max` the C++ does not list is a
-script error (`Except.error`); the undefined behaviours the C++ can reach on integers
-(`INT64_MIN / -1`, shift counts outside `0..63`) are errors of their own kind, never totalised.
+script error (`Except.error`).  Integer `+ - *` wrap (signed overflow in the C++: hardware behaviour,
+recorded in DESIGN.md 7.10.1); division by `-1` negates with wrap-around and `% -1` is `0` (the C++
+special-cases them since `INT64_MIN / -1` trapped); shift counts are masked to six bits.
 -/
 namespace Morfuse.Lang
 
@@ -129,7 +130,8 @@ def typeName : Val → String
 def typeErr (op : String) (a b : Val) : Except Err Val :=
   .error (.type (op ++ " " ++ typeName a ++ " " ++ typeName b))
 
-def shiftOk (n : BitVec 64) : Bool := n.toNat < 64
+/-- `count & 63`: the C++ masks the shift count (it used to be undefined outside 0..63) -/
+def shiftCount (n : BitVec 64) : Nat := n.toNat % 64
 
 /-- the sixteen `Func2Expr` operators on two evaluated operands (`b op= a` of the VM with `b` the
     left operand) -/
@@ -145,17 +147,17 @@ def binop (op : BinOp) (a b : Val) : Except Err Val :=
   | .mul, .int x, .int y => .ok (.int (x * y))
   | .div, .int x, .int y =>
       if y == 0 then .error .divZero
-      else if x == intMin && y == -1 then .error (.ub "INT64_MIN / -1")
+      else if y == -1 then .ok (.int (-x))          -- `INT64_MIN / -1` wraps (the C++ special-cases the divisor -1)
       else .ok (.int (x.sdiv y))
   | .mod, .int x, .int y =>
       if y == 0 then .error .divZero
-      else if x == intMin && y == -1 then .error (.ub "INT64_MIN % -1")
+      else if y == -1 then .ok (.int 0)
       else .ok (.int (x.srem y))
   | .band, .int x, .int y => .ok (.int (x &&& y))
   | .bor, .int x, .int y => .ok (.int (x ||| y))
   | .bxor, .int x, .int y => .ok (.int (x ^^^ y))
-  | .shl, .int x, .int y => if shiftOk y then .ok (.int (x <<< y.toNat)) else .error (.ub "shift count")
-  | .shr, .int x, .int y => if shiftOk y then .ok (.int (x.sshiftRight y.toNat)) else .error (.ub "shift count")
+  | .shl, .int x, .int y => .ok (.int (x <<< shiftCount y))
+  | .shr, .int x, .int y => .ok (.int (x.sshiftRight (shiftCount y)))
   | .eq, x, y => .ok (boolVal (valEq x y))
   | .ne, x, y => .ok (boolVal (!valEq x y))
   | .lt, .int x, .int y => .ok (boolVal (x.slt y))
